@@ -54,6 +54,70 @@ theorem Val.field_set_eq (v : Val) (k : String) (x : Val) (h : v.hasKey k = true
   cases v <;> simp_all [Val.set, Val.field, Val.hasKey, getField_setField]
 
 
+theorem getField_none_of_not_any (fs : List (Str × Val)) (k : Str) (h : fs.any (fun f => f.1 = k) = false) :
+    getField fs k = none := by
+  induction fs with
+  | nil => rfl
+  | cons f fs ih =>
+    simp only [List.any_cons, Bool.or_eq_false_iff, decide_eq_false_iff_not] at h
+    simp only [getField, List.find?_cons, h.1, decide_false]
+    exact ih h.2
+
+theorem Val.field_set_absent (v : Val) (k : String) (x : Val) (h : v.hasKey k = false) :
+    (v.set k x).field k = v.field k := by
+  cases v with
+  | struct fs =>
+    simp only [Val.hasKey] at h
+    simp only [Val.set, Val.field, getField_setField, h, if_true, Bool.false_eq_true, if_false,
+      getField_none_of_not_any fs _ h]
+  | _ => rfl
+
+theorem copyFrom_field (src : Val) (keys : List String) (k : String) : ∀ (d : Val),
+    (d.copyFrom src keys).field k =
+      if keys.any (fun x => x.toList = k.toList) ∧ d.hasKey k = true then src.field k else d.field k := by
+  unfold Val.copyFrom
+  induction keys with
+  | nil => intro d; simp
+  | cons k0 ks ih =>
+    intro d
+    simp only [List.foldl_cons, List.any_cons]
+    rw [ih (d.set k0 (src.field k0))]
+    simp only [Val.hasKey_set]
+    by_cases h0 : k0.toList = k.toList
+    · have hk : k0 = k := by
+        have := congrArg String.ofList h0
+        simpa using this
+      subst hk
+      by_cases hd : d.hasKey k0 = true
+      · simp only [hd, and_true, decide_true, Bool.true_or, h0, if_true]
+        split
+        · rfl
+        · exact Val.field_set_eq _ _ _ hd
+      · have hd' : d.hasKey k0 = false := by simpa using hd
+        simp only [hd', and_false, if_false, Bool.false_eq_true]
+        exact Val.field_set_absent _ _ _ hd'
+    · have h0' : k.toList ≠ k0.toList := fun e => h0 e.symm
+      simp only [h0, decide_false, Bool.false_or]
+      split
+      · rfl
+      · exact Val.field_set_ne _ _ _ _ h0'
+
+theorem copyFrom_carried (d src : Val) (keys : List String) (k : String)
+    (hm : keys.any (fun x => x.toList = k.toList) = true) (hk : d.hasKey k = true) :
+    (d.copyFrom src keys).field k = src.field k := by
+  rw [copyFrom_field]; simp only [hm, hk, and_self, if_true]
+
+theorem copyFrom_other (d src : Val) (keys : List String) (k : String)
+    (hm : keys.any (fun x => x.toList = k.toList) = false) :
+    (d.copyFrom src keys).field k = d.field k := by
+  rw [copyFrom_field]; simp [hm]
+
+theorem copyFrom_hasKey (d src : Val) (keys : List String) (k : String) : (d.copyFrom src keys).hasKey k = d.hasKey k := by
+  unfold Val.copyFrom
+  induction keys generalizing d with
+  | nil => rfl
+  | cons k0 ks ih => simp only [List.foldl_cons]; rw [ih, Val.hasKey_set]
+
 /-- the issuer survives the copy `DecodeGeneric` makes of the decoded anonymous struct -/
 theorem generic_copy_iss (gc : Val) :
     (((zero Gen.V2.GenericClaims).copyFrom gc ("nats" :: claimsDataKeys)).field "iss") = gc.field "iss" := by
